@@ -137,7 +137,7 @@ func runText(tc *textCase) (textRes, []failure) {
 	if b := allocBound("text", len(tc.In)); out.Alloc > b {
 		fails = append(fails, failure{"alloc", fmt.Sprintf("%s allocated %d bytes for a %d-byte input (bound %d)", tc.Fn, out.Alloc, len(tc.In), b)})
 	}
-	if out.Dur > 1500*time.Millisecond {
+	if out.Dur > 3*time.Second {
 		fails = append(fails, failure{"slow", fmt.Sprintf("%s ran %v on a %d-byte input", tc.Fn, out.Dur, len(tc.In))})
 	}
 	return res, append(fails, extra...)
@@ -248,9 +248,9 @@ func mutateText(c *core.Ctx, s []byte) []byte {
 }
 
 func genText(c *core.Ctx) {
-	nMut := 4
+	nMut := 3
 	if !c.Quick() {
-		nMut = 60
+		nMut = 16
 	}
 	for _, seed := range textSeeds {
 		inputs := [][]byte{[]byte(seed)}
